@@ -311,4 +311,51 @@ theorem C11_code_init_cutoff_exact (nr : Option Int) (dr cutoff : Option Rat) :
 theorem C11_code_rows_for_step (cutoff dr : Float) : Atsim.Gen.Logic.rows_for_step cutoff dr = rowsSnap cutoff dr := by
   simp only [Atsim.Gen.Logic.rows_for_step, rowsSnap, decide_eq_true_eq]
 
+/-! ## The code itself: the factories' defaults and layout checks (`_tabulation_factories.py`)
+
+`Atsim.Gen.Logic.pair_extract_cutoffs / eam_extract_cutoffs / dlpoly_extract_cutoffs / lammps_extract_cutoffs` are the four `extract_cutoffs` methods as regenerated on
+every run (logging dropped; `super(...).extract_cutoffs(cp)` is the base class's method). -/
+
+open Atsim.Gen.Logic in
+/-- **code tie (defaults)**: what the model leaves open is filled in with `cutoff = 10.0`, `nr = 1001` - and nothing the model fixes is changed -/
+theorem C11_code_pair_defaults (t : TabSec) :
+    pair_extract_cutoffs ⟨t⟩ = ⟨t.cutoff.getD 10, t.nr.getD 1001⟩ := by
+  unfold pair_extract_cutoffs
+  cases h1 : t.cutoff <;> cases h2 : t.nr <;> simp [h1, h2]
+
+open Atsim.Gen.Logic in
+/-- the pair defaults are the model's `withDefaults` -/
+theorem C11_code_pair_defaults_model (t : TabSec) :
+    ((pair_extract_cutoffs ⟨t⟩).nr, (pair_extract_cutoffs ⟨t⟩).cutoff) = withDefaults (t.nr, t.cutoff) 1001 10 := by
+  rw [C11_code_pair_defaults]; rfl
+
+open Atsim.Gen.Logic in
+/-- **code tie (EAM defaults)**: additionally `cutoff_rho = 100.0`, `nrho = 1001` -/
+theorem C11_code_eam_defaults (t : TabSec) :
+    eam_extract_cutoffs ⟨t⟩ = ⟨t.cutoff.getD 10, t.nr.getD 1001, t.cutoff_rho.getD 100, t.nrho.getD 1001⟩ := by
+  unfold eam_extract_cutoffs
+  rw [C11_code_pair_defaults]
+  cases h1 : t.cutoff_rho <;> cases h2 : t.nrho <;> simp [h1, h2]
+
+open Atsim.Gen.Logic in
+/-- **code tie (DL_POLY)**: refused unless the row count (after defaults) is a multiple of four greater than four; otherwise the defaults, unchanged -/
+theorem C11_code_dlpoly_cutoffs (t : TabSec) :
+    dlpoly_extract_cutoffs ⟨t⟩ =
+      if (t.nr.getD 1001) % 4 ≠ 0 then .error FactoryErr.notMultipleOfFour
+      else if t.nr.getD 1001 ≤ 4 then .error FactoryErr.fourRowsOrFewer
+      else .ok ⟨t.cutoff.getD 10, t.nr.getD 1001⟩ := by
+  unfold dlpoly_extract_cutoffs
+  rw [C11_code_pair_defaults]
+  by_cases h : (t.nr.getD 1001) % 4 = 0 <;> by_cases h' : t.nr.getD 1001 ≤ 4 <;> simp [h, h']
+
+open Atsim.Gen.Logic in
+/-- **code tie (LAMMPS)**: refused when fewer than three grid points are asked for (two rows are needed: the first grid point, r = 0, is not written) -/
+theorem C11_code_lammps_cutoffs (t : TabSec) :
+    lammps_extract_cutoffs ⟨t⟩ =
+      if t.nr.getD 1001 < 3 then .error FactoryErr.fewerThanThreePoints else .ok ⟨t.cutoff.getD 10, t.nr.getD 1001⟩ := by
+  unfold lammps_extract_cutoffs
+  rw [C11_code_pair_defaults]
+  by_cases h : t.nr.getD 1001 < 3 <;> simp [h]
+
+
 end Atsim.C11
